@@ -601,7 +601,7 @@ type varOpts struct {
 func genVarCase(r *RNG, id string, o varOpts) *Case {
 	c := NewCase("VAR", id)
 	L := r.Range(30, 160)
-	sparseLong = o.maxGenes > 0 && !o.smallMutPool && r.Chance(1, 15)
+	sparseLong = o.maxGenes > 0 && !o.smallMutPool && atScale(r, 15)
 	defer func() { sparseLong = false }()
 	if sparseLong {
 		L = r.Range(400, 900)
